@@ -3,6 +3,7 @@ import Adc.Unitary
 import Adc.Symmetry
 import Adc.Wick
 import Adc.Contraction
+import Adc.SpinSplit
 /- Line-protocol driver: one JSON request per line on stdin, one JSON answer per line on stdout. -/
 open Lean Adc Adc.Wire
 
@@ -112,6 +113,13 @@ def handle (j : Json) : P Json := do
     else pure (Json.mkObj [("ok", false),
       ("objs", tr.objs.isPerm t.objs), ("nodup", nodupB tr.summedAll),
       ("summed", tr.summedAll.isPerm t.contr), ("wf", wfTerm t), ("scoped", tr.scoped [])])
+  | "spinref" =>     -- C15: spin-labelled targets + alpha/beta split of the listed summed indices
+    let e ← pExpr (← fld j "e")
+    let σ ← pSub (← fld j "sigma")
+    let cs ← pIdxs (← fld j "split")
+    match spinRef σ cs e with
+    | none => pure (Json.mkObj [("ok", false)])
+    | some r => pure (Json.mkObj [("ok", true), ("e", jExpr r)])
   | "ordersubs" =>   -- C08: order_substitutions
     let m ← pSub (← fld j "m")
     pure (Json.mkObj [("seq", jSub (orderSubs m))])
